@@ -349,6 +349,10 @@ def run_case(case):
     finally:
         w.close()
     exp = fresh_probe(case['probe'])
+    if not case['h'] and case['probe'] in ('play-old-alias', 'play-new-alias', 'play-new-output') and (exp[2] is not None or any(o and o[0] == 'exc' for o in (exp[1] or ()))):
+        # the baseline itself is only "fresh" up to the few recordings the world needs: it must at least be answered completely
+        viols.append(viol('probe-%s:not-answered-on-a-new-recorder' % case['probe'], 'a replay whose every call has an entry (own alias or declared fallback) in the recording was not answered from it',
+                          'every call answered', exp))
     if got != exp:
         last = case['h'][-1] if case['h'] else 'nothing'
         # which earlier run is to blame: the shortest suffix that still shows it is not searched here; name the last abnormal run
